@@ -352,7 +352,9 @@ Record rclaim := mkRClaim {
   rc_deleting : bool;
   rc_annot : annot
 }.
-Record rnode := mkRNode { rn_pool : option string; rn_conds : list ncond }.
+(* a Node in the API; rn_deleting = it carries a deletionTimestamp (Terminating, kept by its finalizer).
+   The breaker counts every listed Node, terminating or not. *)
+Record rnode := mkRNode { rn_pool : option string; rn_deleting : bool; rn_conds : list ncond }.
 
 Record rp_in := mkRp {
   r_pid : string;                   (* the reconciled Node's Spec.ProviderID *)
@@ -447,6 +449,13 @@ Definition repair (i : rp_in) : nat * nat * res :=
             end
       end
   end.
+
+(* variant that leaves terminating Nodes out of both the unhealthy count and the total (NOT the code;
+   kept to state that it breaks the 20% bound) *)
+Definition repair_skip_terminating (i : rp_in) : nat * nat * res :=
+  repair (mkRp (r_pid i) (r_conds i) (r_claims i) (r_claims_resp i) (r_policies i) (r_now i)
+               (filter (fun n => negb (rn_deleting n)) (r_nodes i))
+               (r_nodes_resp i) (r_poolget i) (r_patch i) (r_del i)).
 
 (* oracle: a Delete implies: exactly one NodeClaim resolved, some repair policy matches a
    condition of the node that has lasted its toleration, the node list was read, and at most
